@@ -114,6 +114,13 @@ def rawcopy_oracle(ctx):
 
 @st.composite
 def rawcopy_cases(draw):
+    if draw(st.integers(0, 9)) == 0:
+        # the region is a length-preserving byte transform: `data` are the bytes on the wire, not the value's own encoding
+        n = draw(st.integers(1, 4))
+        body = draw(st.sampled_from([["int", n, False, "b", "bi"], ["bytes", n]]))
+        spec = draw(st.sampled_from([["byteswapped", body], ["bitsswapped", body], ["fixedsized", n, ["xor", draw(st.sampled_from([0x5a, b"\x01\xff"])), body]]]))
+        value = draw(st.binary(min_size=n, max_size=n)) if body[0] == "bytes" else draw(st.integers(0, 256 ** n - 1))
+        return [spec, {}, value, draw(st.sampled_from(SHAPES)), draw(st.integers(0, 5))]
     spec, params, value = draw(V.cases(frag=FRAG, depth=2, tail=False))
     return [spec, params, value, draw(st.sampled_from(SHAPES)), draw(st.integers(0, 5))]
 
@@ -220,6 +227,11 @@ HASHES = {
     "sha256": (lambda: C.Bytes(32), lambda b: hashlib.sha256(b).digest(), 32),
     "sha256-trunc4": (lambda: C.Bytes(4), lambda b: hashlib.sha256(b).digest()[:4], 4),
     "sum8": (lambda: C.Byte, lambda b: (sum(b) * 31 + len(b)) & 0xff, 1),
+    # digests of other legal Python types: a hand-rolled function assembling its result in a bytearray (Bytes builds from one and
+    # bytes == bytearray), a hex digest kept as text, and a pair of integers
+    "fletcher16-bytearray": (lambda: C.Bytes(2), lambda b: bytearray([sum(b) % 255, sum((len(b) - i) * x for i, x in enumerate(b)) % 255]), 2),
+    "sha1-hex8": (lambda: C.PaddedString(8, "ascii"), lambda b: hashlib.sha1(b).hexdigest()[:8], 8),
+    "pair-list": (lambda: C.Array(2, C.Byte), lambda b: [sum(b) & 0xff, len(b) & 0xff], 2),
 }
 
 
@@ -266,7 +278,8 @@ def checksum_oracle(ctx):
             return Failure("C14/checksum/invariant", "hash(region.data) != checksum on built data | %s" % where)
         # a stale or wrong checksum supplied by the caller (e.g. a parsed result whose region was edited) is recomputed
         stale = dict(checksum_value(value, layout))
-        stale["checksum"] = (b"\x00" * n) if isinstance(p.value.checksum, bytes) else ((p.value.checksum + 1) & 0xff)
+        cs = p.value.checksum
+        stale["checksum"] = (b"\x00" * n) if isinstance(cs, bytes) else ("0" * n if isinstance(cs, str) else ([0] * n if isinstance(cs, list) else (cs + 1) & 0xff))
         bs = call(con.build, stale, **params)
         if not bs.ok or bs.value != b.value:
             return Failure("C14/checksum/build-uses-supplied-digest/%s" % hname, "build with a stale 'checksum' entry -> %r, expected the recomputed %s | %s" % (bs, b.value.hex(), where))
@@ -288,7 +301,9 @@ def checksum_oracle(ctx):
             in_digest = digest_at <= i < digest_at + n
             ctx.record([spec, value, hname, layout, i, bit], True, ["corrupt/digest" if in_digest else "corrupt/region"])
             if stable or in_digest:
-                if o.ok or type(o.exc) is not C.ChecksumError:
+                # (a flipped top bit in a digest kept as ASCII text is already refused by the text field itself)
+                textual = in_digest and hname == "sha1-hex8" and not o.ok and type(o.exc) is C.StringError and bit == 7
+                if (o.ok or type(o.exc) is not C.ChecksumError) and not textual:
                     return Failure("C14/checksum/corruption-undetected/%s" % hname, "bit %d of byte %d (%s) flipped: parse -> %r instead of ChecksumError | built %s | %s" % (
                         bit, i, "digest" if in_digest else "covered region", o, b.value.hex(), where))
             else:
